@@ -416,6 +416,117 @@ func runC14(c *Ctx) {
 		}
 	}
 
+	// ---------- R7: one instance per cached rule ----------
+	// Two queries that miss the cold cache for the same index each parse the rule.  Callers tell
+	// rules apart by pointer (the shortcut table's "already in the result" test), so the second
+	// insert must not replace the first: under the write lock the entry is looked up again, the
+	// insert happens only when it is still absent, and otherwise the instance found is what the
+	// retrieval hands back.
+	{
+		c.Rule("C14.R7", "LOCK", "the cache insert re-checks the entry under the write lock and keeps the instance already stored", 1)
+		nIns := 0
+		for _, fn := range c.P.AllLibFuncs() {
+			if fn.Pkg == nil || !strings.HasSuffix(fn.Pkg.Pkg.Path(), "/filterlist") {
+				continue
+			}
+			eachInstr(fn, func(mb *ssa.BasicBlock, in ssa.Instruction) {
+				mu, ok := in.(*ssa.MapUpdate)
+				if !ok || in.Parent() == nil {
+					return
+				}
+				ld, ok := mu.Map.(*ssa.UnOp)
+				if !ok || ld.Op != token.MUL {
+					return
+				}
+				n, f, ok := fieldOf(ld.X)
+				if !ok || n == nil || n.Obj().Name() != cOwner || f != cField {
+					return
+				}
+				nIns++
+				F := in.Parent()
+				key := shortFn(F) + ": cache insert"
+				// a comma-ok lookup of the same map and key, in the same function, after the
+				// write lock was taken, whose "found" edge leads away from the insert
+				okRecheck, okKeep := false, false
+				eachInstr(F, func(lb *ssa.BasicBlock, in2 ssa.Instruction) {
+					lk, ok := in2.(*ssa.Lookup)
+					if !ok || !lk.CommaOk || in2.Parent() != F || !sameCell(lk.Index, mu.Key) {
+						return
+					}
+					ld2, ok := lk.X.(*ssa.UnOp)
+					if !ok || ld2.Op != token.MUL {
+						return
+					}
+					if n2, f2, ok := fieldOf(ld2.X); !ok || n2 != n || f2 != f {
+						return
+					}
+					// after a Lock of this function
+					locked := false
+					eachInstr(F, func(kb *ssa.BasicBlock, in3 ssa.Instruction) {
+						if cl, ok := in3.(*ssa.Call); ok && in3.Parent() == F && mutexOp(cl.Call.StaticCallee()) == "Lock" && instrDominates(in3, in2) {
+							locked = true
+						}
+					})
+					if !locked || !instrDominates(in2, in) {
+						return
+					}
+					var okV, valV ssa.Value
+					if rs := lk.Referrers(); rs != nil {
+						for _, r := range *rs {
+							if ex, isEx := r.(*ssa.Extract); isEx {
+								if ex.Index == 1 {
+									okV = ex
+								} else {
+									valV = ex
+								}
+							}
+						}
+					}
+					if okV == nil {
+						return
+					}
+					// the insert lies on the not-found side of a branch on the flag
+					if rs := okV.Referrers(); rs != nil {
+						for _, r := range *rs {
+							iff, isIf := r.(*ssa.If)
+							if !isIf {
+								continue
+							}
+							notFound := iff.Block().Succs[1]
+							if notFound == mb || notFound.Dominates(mb) {
+								if found := iff.Block().Succs[0]; found != mb && !found.Dominates(mb) {
+									okRecheck = true
+								}
+							}
+						}
+					}
+					// the instance found is handed on (stored into the result / returned)
+					if valV != nil {
+						if rs := valV.Referrers(); rs != nil {
+							for _, r := range *rs {
+								switch r.(type) {
+								case *ssa.Store, *ssa.Return, *ssa.Phi, *ssa.ChangeInterface, *ssa.MakeInterface:
+									okKeep = true
+								}
+							}
+						}
+					}
+				})
+				bad := ""
+				switch {
+				case !okRecheck:
+					bad = "the rule parsed after a cache miss is stored without looking the entry up again under the write lock: two queries that miss together each store their own copy, the later one replaces the earlier, and a query that already holds the earlier copy gets the later one for the same index and reports the rule twice (rules are told apart by pointer)"
+				case !okKeep:
+					bad = "the entry found under the write lock is not what the retrieval hands back: the caller keeps a second instance of a rule that is already cached"
+				}
+				c.Check(bad == "", "C14.R7", key, in.Pos(), "m[k] looked up again after Lock(); insert only when absent; the instance found is returned", bad)
+			})
+		}
+		if nIns == 0 {
+			c.Fail("C14.R7", "rule cache insert", token.NoPos, "UNDECIDED: no insert into the rule cache found")
+		}
+	}
+
 	// ---------- R2 / R3 ----------
 	nAcq := 0
 	for _, fn := range fns {
@@ -724,4 +835,15 @@ func isPoolPut(p *Prog, cal *ssa.Function, depth int) bool {
 		}
 	})
 	return found
+}
+
+// sameCell: the same value, or two reads of the same variable (a captured variable is read
+// anew at each use).
+func sameCell(a, b ssa.Value) bool {
+	if a == b {
+		return true
+	}
+	la, ok1 := a.(*ssa.UnOp)
+	lb, ok2 := b.(*ssa.UnOp)
+	return ok1 && ok2 && la.Op == token.MUL && lb.Op == token.MUL && la.X == lb.X
 }
